@@ -925,6 +925,11 @@ fn c06(ctx: &Ctx, calls: &[CallRec], exchanges: &[Exchange], records: &[Record],
                             Want::Reject("wrong_type")
                         } else if ex.req_fired.iter().any(|f| f.kind == FK::UnionMismatch) {
                             Want::Reject("union_tag_and_member_disagree")
+                        } else if ex.req_fired.iter().any(|f| f.kind == FK::NumberOutOfRange)
+                            && !ex.req_fired.iter().any(|f| matches!(f.kind, FK::Truncate | FK::ByteFlip | FK::CtLabelSwap))
+                        {
+                            // (a truncated out-of-range number may be in range again)
+                            Want::Reject("number_out_of_range")
                         } else if all_transparent {
                             Want::Accept
                         } else {
@@ -1050,6 +1055,8 @@ fn c18(ctx: &Ctx, calls: &[CallRec], exchanges: &[Exchange], records: &[Record],
                 }
             } else if ex.resp_fired.iter().any(|f| f.kind == FK::UnionMismatch) {
                 WantC::Err("union_tag_and_member_disagree")
+            } else if ex.resp_fired.iter().any(|f| f.kind == FK::NumberOutOfRange) && !ex.resp_fired.iter().any(|f| matches!(f.kind, FK::Truncate | FK::ByteFlip)) {
+                WantC::Err("number_out_of_range")
             } else if all_transparent {
                 WantC::OkHandler
             } else {
